@@ -327,6 +327,10 @@ class PyFacts:
                         return c
         return None
 
+    def all_classes(self):
+        for m in self.modules.values():
+            yield from m.classes.values()
+
     def all_functions(self):
         for m in self.modules.values():
             for f in m.functions.values():
